@@ -139,7 +139,9 @@ static void run_static_exit(int comp, int sink, Result& R, std::vector<CV>& out)
 }
 
 // end to end: the same records exported through CdnsExporter with compression `comp` and without; decompressed output must equal the plain one
+static int g_export_oracle = 0;   // 0: transparency (C14); 1: byte counts (C10); 2: well-formedness (C02)
 static void run_export(int comp, int sink, int nrec, int kind, Result& R, std::vector<CV>& out) {
+    uint64_t reported = 0;
     std::string base = g_dir + "/e" + std::to_string(getpid()) + "_"; uint64_t c0[4] = {g_gz_partial, g_gz_finish_more, g_xz_partial, g_xz_finish_more};
     auto doit = [&](CborOutputCompression cc, const std::string& name) {
         BlockParameters bp; bp.storage_parameters.max_block_items = kind == 0 ? 10000 : 97; std::vector<BlockParameters> bps = {bp}; FilePreamble fp(bps);
@@ -148,7 +150,8 @@ static void run_export(int comp, int sink, int nrec, int kind, Result& R, std::v
         for (int i = 0; i < nrec; i++) { GenericQueryResponse q; q.ts = Timestamp(1600000000 + i / 50, (i * 7919) % 1000000); q.client_port = (uint16_t)(i * 31); q.transaction_id = (uint16_t)i; q.query_size = 40 + i % 60; q.response_size = 100 + (i * 13) % 1400;
             std::string nm(12 + i % 20, 0); for (auto& ch : nm) { x ^= x << 13; x ^= x >> 7; x ^= x << 17; ch = (char)('a' + (x >> 11) % (kind == 2 ? 256 : 26)); } q.query_name = nm + std::string("\x07""example\x03""com\x00", 13);
             std::string ip(4, 0); for (auto& ch : ip) { x ^= x << 13; x ^= x >> 7; x ^= x << 17; ch = (char)(x >> 9); } q.client_ip = ip; q.server_ip = std::string("\xc0\x00\x02\x01", 4); q.query_rcode = i % 5; q.response_delay = (int64_t)(x % 100000);
-            e->buffer_qr(q); R.count("transitions"); }
+            size_t r = e->buffer_qr(q); if (cc != CborOutputCompression::NO_COMPRESSION) reported += r; R.count("transitions"); }
+        size_t r = e->write_block(); if (cc != CborOutputCompression::NO_COMPRESSION) reported += r + 1;   // + the closing break written when the output is closed
     };
     std::string pn = base + "plain", cn = base + "comp"; const char* ext = comp == 1 ? ".gz" : ".xz";
     doit(CborOutputCompression::NO_COMPRESSION, pn); doit(comp == 1 ? CborOutputCompression::GZIP : CborOutputCompression::XZ, cn);
@@ -157,6 +160,12 @@ static void run_export(int comp, int sink, int nrec, int kind, Result& R, std::v
     std::string expect = slurp(pn), z = slurp(cpath), plain, why; bool ok = comp == 1 ? gunzip1(z, plain, why) : unxz1(z, plain, why);
     R.count("export_plain_bytes", expect.size());
     if (expect.size() < 1000) out.push_back({"harness|" + tag, "plain export is empty"});
+    if (g_export_oracle == 1) { // C10: the counts returned while the output was open add up to the size of its uncompressed content
+        if (!ok) out.push_back({"count|undecodable-output|" + tag, why}); else if (plain.size() != reported) out.push_back({"count|" + tag, "the calls reported " + std::to_string(reported) + " bytes, the output decompresses to " + std::to_string(plain.size()) + " bytes"});
+        unlink(pn.c_str()); unlink(cpath.c_str()); unlink((cn + ext + ".part").c_str()); return; }
+    if (g_export_oracle == 2) { // C02: the decompressed output is one well-formed, schema-valid document
+        if (!ok) out.push_back({"wellformed|undecodable-output|" + tag, why}); else { try { ref::RFile rf = ref::read_file(plain); size_t nq = 0; for (auto& b : rf.blocks) nq += b.qrs.size(); R.count("export_records_validated", nq); } catch (std::exception& e) { out.push_back({"wellformed|invalid-document|" + tag, std::string("the decompressed output (") + std::to_string(plain.size()) + " bytes) is not a valid C-DNS document: " + e.what()}); } }
+        unlink(pn.c_str()); unlink(cpath.c_str()); unlink((cn + ext + ".part").c_str()); return; }
     if (!ok) out.push_back({"not-one-complete-stream|" + tag, why});
     else if (plain != expect) { size_t p = 0; while (p < plain.size() && p < expect.size() && plain[p] == expect[p]) p++; out.push_back({"content-differs|" + tag, "decompressed export has " + std::to_string(plain.size()) + " bytes, the plain export " + std::to_string(expect.size()) + ", first difference at " + std::to_string(p)}); }
     unlink(pn.c_str()); unlink(cpath.c_str()); unlink((cn + ext + ".part").c_str());
@@ -164,6 +173,7 @@ static void run_export(int comp, int sink, int nrec, int kind, Result& R, std::v
 
 int main(int argc, char** argv) {
     Args a = Args::parse(argc, argv); g_dir = scratch_dir(); Result total; bool T = a.thorough();
+    if (a.mode == "export-counts") g_export_oracle = 1; else if (a.mode == "export-wellformed") g_export_oracle = 2;
     auto done = [&](int rc) { a.finish(total); rm_rf(g_dir); return rc; };
     auto parse = [](const std::string& s, int& comp, int& sink, std::vector<Step>& st) {
         if (sscanf(s.c_str(), "comp=%d;sink=%d;", &comp, &sink) != 2) return false; size_t p = s.find("steps="); if (p == std::string::npos) return false; p += 6;
@@ -207,6 +217,9 @@ int main(int argc, char** argv) {
       // end to end through the exporter (chunks of 2040..2048 bytes as the encoder flushes them)
       for (int comp = 1; comp <= 2; comp++) for (int sink = 0; sink < 2; sink++) for (int kind = 0; kind < 3; kind++) { if (!T && (kind == 1 || (comp == 2 && sink == 1))) continue; Task t{comp, sink, {}, false}; t.exp_n = T ? 60000 : 25000; t.exp_kind = kind; tasks.push_back(t); } }
     // only in the dedicated stage (AddressSanitizer build): without a sanitizer the use of a destroyed static may or may not be noticed, which would not replay
+    // dedicated stages of C10 / C02: only the end-to-end exports (large compressed outputs), judged by the byte-count / well-formedness oracle
+    if (a.mode == "export-counts" || a.mode == "export-wellformed") { g_export_oracle = a.mode == "export-counts" ? 1 : 2; tasks.clear();
+        for (int comp = 1; comp <= 2; comp++) for (int sink = 0; sink < 2; sink++) for (int kind = 0; kind < 3; kind++) for (int n : T ? std::vector<int>{3000, 25000, 60000} : std::vector<int>{3000, 25000}) { if (!T && kind == 1) continue; Task t{comp, sink, {}, false}; t.exp_n = n; t.exp_kind = kind; tasks.push_back(t); } }
     if (a.mode == "static-exit") { tasks.clear(); for (int comp = 1; comp <= 2; comp++) for (int sink = 0; sink < 2; sink++) { Task t{comp, sink, {}, false}; t.static_exit = true; tasks.push_back(t); } }
     Pool pool(a.jobs, 900);
     pool.run(tasks.size(), [&](uint64_t ti, Result& R) {
